@@ -8,5 +8,7 @@ CONSTANTS
  FixDetector = FALSE
  FixNifty = TRUE
  AtomicAdopt = TRUE
+ RefreshExpected = TRUE
 INVARIANT Reclaimed
+INVARIANT ListComplete
 CHECK_DEADLOCK FALSE
